@@ -1,4 +1,5 @@
 r"""Other time series processing."""
+from operator import index
 from typing import Callable, Tuple, Union, List
 
 import numpy as np
@@ -113,6 +114,7 @@ def repeat(x, y, repeats: int) -> tuple[np.ndarray, np.ndarray]:
     x = np.asanyarray(x, dtype=float)
     y = np.asanyarray(y, dtype=float)
     n = len(x)
+    repeats = index(repeats)  # len * repeats overflows inside np.tile for narrow NumPy integers
     y = np.tile(y, repeats)
     x = np.tile(x, repeats)
     for i in range(1, repeats):
